@@ -3,13 +3,1064 @@ From Verif Require Import Base.GoInt Base.Lanes Base.LanesProofs Iso8601.Ext Gen
 From Coq Require Import ZifyBool.
 Open Scope Z_scope.
 
+Ltac Zify.zify_post_hook ::= Z.div_mod_to_equations.
+
+(* ---------- small-range machine arithmetic ---------- *)
+
+Lemma add64_small a b : 0 <= a + b < 18446744073709551616 -> add64 a b = a + b.
+Proof. intros. unfold add64, w64. apply Z.mod_small. change (2^64) with 18446744073709551616. lia. Qed.
+Lemma sub64_small a b : 0 <= a - b < 18446744073709551616 -> sub64 a b = a - b.
+Proof. intros. unfold sub64, w64. apply Z.mod_small. change (2^64) with 18446744073709551616. lia. Qed.
+Lemma mul64_small a b : 0 <= a * b < 18446744073709551616 -> mul64 a b = a * b.
+Proof. intros. unfold mul64, w64. apply Z.mod_small. change (2^64) with 18446744073709551616. lia. Qed.
+Lemma s64_small x : -9223372036854775808 <= x < 9223372036854775808 -> s64 x = x.
+Proof.
+  intros H. unfold s64, w64. change (2^64) with 18446744073709551616; change (2^63) with 9223372036854775808.
+  cbv zeta. destruct (Z.ltb_spec (x mod 18446744073709551616) 9223372036854775808); lia.
+Qed.
+Lemma s64_sub64 a b : -9223372036854775808 <= a - b < 9223372036854775808 -> s64 (sub64 a b) = a - b.
+Proof.
+  intros H. rewrite <- (s64_small (a - b) H). unfold sub64, s64, w64. cbv zeta. rewrite Z.mod_mod; [reflexivity|]. discriminate.
+Qed.
+
+Ltac simp64 := repeat (match goal with
+  | |- context [add64 ?a ?b] => rewrite (add64_small a b) by lia
+  | |- context [sub64 ?a ?b] => rewrite (sub64_small a b) by lia
+  | |- context [mul64 ?a ?b] => rewrite (mul64_small a b) by nia
+  end).
+
+
 Lemma leaps_before_step : leaps_before_step_statement.
-Admitted.
+Proof.
+  intros y Hy. unfold leaps_before, is_leap.
+  destruct (y mod 4 =? 0) eqn:E4; destruct (y mod 100 =? 0) eqn:E100; destruct (y mod 400 =? 0) eqn:E400;
+  cbn [andb orb negb]; lia.
+Qed.
+
 Lemma civil_days : civil_days_statement.
-Admitted.
+Proof.
+  intros y m d Hy Hm Hd.
+  unfold iso8601_daysSinceEpoch. cbv zeta.
+  unfold unix_days, days_before_year, leaps_before, days_before_month.
+  destruct (Z.ltb_spec m 3) as [Hlt|Hge].
+  - assert (E1 : sub64 m 3 = m - 3 + 18446744073709551616).
+    { unfold sub64, w64. change (2^64) with 18446744073709551616. lia. }
+    rewrite E1.
+    replace (m - 3 + 18446744073709551616 >? m) with true by lia.
+    change (1 =? 1) with true. cbv iota.
+    assert (E2 : add64 (m - 3 + 18446744073709551616) 12 = m + 9).
+    { unfold add64, w64. change (2^64) with 18446744073709551616. lia. }
+    rewrite E2. unfold div64. simp64. rewrite s64_sub64.
+    + replace (3 <=? m) with false by lia. rewrite andb_false_r.
+      assert (Hc : m = 1 \/ m = 2) by lia. destruct Hc; subst m.
+      * change (nth (Z.to_nat (1 - 1)) [0; 31; 59; 90; 120; 151; 181; 212; 243; 273; 304; 334] 0) with 0. lia.
+      * change (nth (Z.to_nat (2 - 1)) [0; 31; 59; 90; 120; 151; 181; 212; 243; 273; 304; 334] 0) with 31. lia.
+    + lia.
+  - rewrite (sub64_small m 3) by lia.
+    replace (m - 3 >? m) with false by lia.
+    change (0 =? 1) with false. cbv iota.
+    unfold div64. simp64. rewrite s64_sub64.
+    + replace (3 <=? m) with true by lia. rewrite andb_true_r.
+      unfold is_leap.
+      assert (Hc: m = 3 \/ m = 4 \/ m = 5 \/ m = 6 \/ m = 7 \/ m = 8 \/ m = 9 \/ m = 10 \/ m = 11 \/ m = 12) by lia.
+      destruct (y mod 4 =? 0) eqn:E4; destruct (y mod 100 =? 0) eqn:E100; destruct (y mod 400 =? 0) eqn:E400;
+      cbn [andb orb negb];
+      repeat (destruct Hc as [Hc|Hc]); subst m;
+      match goal with |- context [nth ?a ?l 0] => let v := eval cbv in (nth a l 0) in change (nth a l 0) with v end;
+      lia.
+    + assert (0 <= ((m - 3) * 62719 + 769) / 2048 <= 400) by lia. lia.
+Qed.
+
+(* ---------- validate ---------- *)
+Lemma isLeap_eq y : iso8601_isLeapYear y = is_leap y.
+Proof. reflexivity. Qed.
+
 Lemma validate_exact : validate_exact_statement.
-Admitted.
+Proof.
+  intros y m d hh mm ss Hy Hm Hd Hhh Hmm Hss.
+  unfold iso8601_validate. rewrite isLeap_eq. unfold days_in. cbv zeta.
+  destruct (is_leap y).
+  all: repeat match goal with |- context [if ?c then _ else _] => destruct c eqn:? end; cbn [isnil]; try lia.
+Qed.
+
+(* ---------- Valid ---------- *)
+Lemma isDigit_eq c : iso8601_isDigit c = isdig c.
+Proof. reflexivity. Qed.
+
+Lemma readByte_spec v c :
+  iso8601_readByte v c = match v with x :: r => if x =? c then (r, true) else (v, false) | [] => (v, false) end.
+Proof.
+  unfold iso8601_readByte. destruct v as [|x r]; [reflexivity|].
+  replace (len (x :: r) =? 0) with false by (unfold len; cbn [length]; lia).
+  change (at_ (x :: r) 0) with x. change (slice_from (x :: r) 1) with r.
+  destruct (x =? c); reflexivity.
+Qed.
+
+Fixpoint take_digits (n : nat) (l : bytes) : nat :=
+  match n, l with
+  | S n', x :: r => if isdig x then S (take_digits n' r) else O
+  | _, _ => O
+  end.
+
+Definition rd_loop (value : bytes) (min max : Z) :=
+  fix loop2_ (f3_ : nat) (i : Z) {struct f3_} : option (bytes * bool) :=
+    match f3_ with
+    | O => None
+    | S f4_ =>
+      if (((i <? max) && (i <? (len value))) && (iso8601_isDigit (at_ value i))) then
+        loop2_ f4_ (addi64 i 1)
+      else (if ((i <? max) && (i <? min)) then Some (value, false) else Some (slice_from value i, true))
+    end.
+
+Lemma readDigits_unfold fuel v min max :
+  iso8601_readDigits fuel v min max =
+  if len v <? min then Some (v, false) else rd_loop v min max fuel 0.
+Proof. reflexivity. Qed.
+
+Lemma skipn_nth_cons (k : nat) (v : bytes) : (k < length v)%nat -> skipn k v = nth k v 0 :: skipn (S k) v.
+Proof.
+  revert v; induction k as [|k IH]; intros [|x r] H; cbn [length] in H; try lia; [reflexivity|].
+  cbn [skipn nth]. rewrite IH by lia. reflexivity.
+Qed.
+
+Lemma rd_loop_spec v min max n : forall f k, (n < f)%nat -> Z.of_nat (k + n) = max -> max < 1000 ->
+  rd_loop v min max f (Z.of_nat k) =
+  let j := Z.of_nat (k + take_digits n (skipn k v)) in
+  if (j <? max) && (j <? min) then Some (v, false) else Some (slice_from v j, true).
+Proof.
+  induction n as [|n IH]; intros f k Hf Hmax Hsmall; (destruct f as [|f]; [lia|]); cbn [rd_loop]; cbv zeta.
+  - replace (Z.of_nat k <? max) with false by lia. cbn [andb take_digits].
+    rewrite Nat.add_0_r. replace (Z.of_nat k <? max) with false by lia. reflexivity.
+  - replace (Z.of_nat k <? max) with true by lia. cbn [andb]. unfold len.
+    destruct (Z.ltb_spec (Z.of_nat k) (Z.of_nat (length v))) as [Hlt|Hge].
+    + rewrite (skipn_nth_cons k v) by lia. unfold at_. rewrite Nat2Z.id. rewrite isDigit_eq.
+      cbn [take_digits andb]. destruct (isdig (nth k v 0)).
+      * unfold addi64. rewrite s64_small by lia.
+        replace (Z.of_nat k + 1) with (Z.of_nat (S k)) by lia.
+        rewrite (IH f (S k)) by lia. cbv zeta.
+        replace (S k + take_digits n (skipn (S k) v))%nat with (k + S (take_digits n (skipn (S k) v)))%nat by lia.
+        reflexivity.
+      * rewrite Nat.add_0_r. replace (Z.of_nat k <? max) with true by lia. reflexivity.
+    + cbn [andb]. rewrite skipn_all2 by lia. cbn [take_digits]. rewrite Nat.add_0_r.
+      replace (Z.of_nat k <? max) with true by lia. reflexivity.
+Qed.
+
+Lemma take_digits_le n v : (take_digits n v <= n)%nat /\ (take_digits n v <= length v)%nat.
+Proof.
+  revert v; induction n as [|n IH]; intros [|x r]; cbn [take_digits length]; try lia.
+  destruct (isdig x); [|lia]. specialize (IH r). lia.
+Qed.
+
+Lemma take_digits_full n v : take_digits n v = n <-> ((n <=? length v)%nat && forallb isdig (firstn n v) = true).
+Proof.
+  revert v; induction n as [|n IH]; intros v.
+  - cbn. destruct v; cbn; tauto.
+  - destruct v as [|x r]; cbn [take_digits length firstn forallb Nat.leb]; [cbn; split; intros; discriminate|].
+    destruct (isdig x); cbn [andb].
+    + rewrite <- IH. lia.
+    + rewrite andb_false_r. split; intros; discriminate.
+Qed.
+
+Lemma readDigits_fixed fuel v (n : nat) : (n < fuel)%nat -> (n < 100)%nat ->
+  iso8601_readDigits fuel v (Z.of_nat n) (Z.of_nat n) =
+  Some (if (n <=? length v)%nat && forallb isdig (firstn n v) then (skipn n v, true) else (v, false)).
+Proof.
+  intros Hf Hn. rewrite readDigits_unfold. unfold len.
+  destruct (Z.ltb_spec (Z.of_nat (length v)) (Z.of_nat n)) as [Hlt|Hge].
+  - replace (n <=? length v)%nat with false by lia. reflexivity.
+  - change 0 with (Z.of_nat 0). rewrite (rd_loop_spec v _ _ n) by lia. cbv zeta.
+    cbn [Nat.add skipn]. rewrite andb_diag.
+    pose proof (take_digits_le n v) as [H1 H2]. pose proof (take_digits_full n v) as H3.
+    destruct ((n <=? length v)%nat && forallb isdig (firstn n v)).
+    + rewrite (proj2 H3 eq_refl). replace (Z.of_nat n <? Z.of_nat n) with false by lia.
+      unfold slice_from. rewrite Nat2Z.id. reflexivity.
+    + assert (take_digits n v <> n) by (intros E; apply H3 in E; discriminate).
+      replace (Z.of_nat (take_digits n v) <? Z.of_nat n) with true by lia. reflexivity.
+Qed.
+
+Lemma rd2 fuel v : (10 <= fuel)%nat ->
+  iso8601_readDigits fuel v 2 2 =
+  Some (match v with a :: b :: r => if isdig a && isdig b then (r, true) else (v, false) | _ => (v, false) end).
+Proof.
+  intros. change 2 with (Z.of_nat 2). rewrite readDigits_fixed by lia.
+  destruct v as [|a [|b r]]; try reflexivity. cbn [length Nat.leb firstn forallb skipn andb].
+  rewrite andb_true_r. reflexivity.
+Qed.
+Lemma rd4 fuel v : (10 <= fuel)%nat ->
+  iso8601_readDigits fuel v 4 4 =
+  Some (match v with a :: b :: c :: d :: r => if isdig a && isdig b && isdig c && isdig d then (r, true) else (v, false) | _ => (v, false) end).
+Proof.
+  intros. change 4 with (Z.of_nat 4). rewrite readDigits_fixed by lia.
+  destruct v as [|a [|b [|c [|d r]]]]; try reflexivity. cbn [length Nat.leb firstn forallb skipn andb].
+  rewrite andb_true_r, !andb_assoc. reflexivity.
+Qed.
+Lemma rd19 fuel v : (10 <= fuel)%nat ->
+  iso8601_readDigits fuel v 1 9 =
+  Some (let j := take_digits 9 v in if (1 <=? j)%nat then (skipn j v, true) else (v, false)).
+Proof.
+  intros Hf. rewrite readDigits_unfold. unfold len.
+  destruct v as [|x r]; [reflexivity|].
+  replace (Z.of_nat (length (x :: r)) <? 1) with false by (cbn [length]; lia).
+  change 0 with (Z.of_nat 0). change 9 with (Z.of_nat (0 + 9)) at 1. rewrite (rd_loop_spec _ _ _ 9) by lia.
+  cbv zeta. cbn [Nat.add skipn].
+  pose proof (take_digits_le 9 (x :: r)) as [H1 H2].
+  destruct (Nat.leb_spec 1 (take_digits 9 (x :: r))).
+  - replace (Z.of_nat (take_digits 9 (x :: r)) <? 1) with false by lia. rewrite andb_false_r.
+    unfold slice_from. rewrite Nat2Z.id. reflexivity.
+  - replace (Z.of_nat (take_digits 9 (x :: r)) <? 1) with true by lia.
+    replace (Z.of_nat (take_digits 9 (x :: r)) <? Z.of_nat 9) with true by lia. reflexivity.
+Qed.
+
+(* flags *)
+Lemma land_small a b : 0 <= a -> 0 <= b < 2^62 -> 0 <= Z.land a b < 2^62.
+Proof.
+  intros Ha Hb. split; [apply Z.land_nonneg; lia|].
+  assert (E : Z.land a b = Z.land a b mod 2^62).
+  { rewrite <- Z.land_ones by lia. rewrite <- Z.land_assoc. rewrite (Z.land_ones b) by lia.
+    rewrite (Z.mod_small b) by lia. reflexivity. }
+  rewrite E. apply Z.mod_pos_bound. lia.
+Qed.
+Lemma andi64_flag flags F : 0 <= flags -> 0 <= F < 2^62 -> (andi64 flags F =? 0) = negb (has_flag flags F).
+Proof.
+  intros H1 H2. unfold andi64, has_flag. pose proof (land_small flags F H1 H2) as H.
+  change (2^62) with 4611686018427387904 in H.
+  rewrite s64_small by lia. rewrite negb_involutive. reflexivity.
+Qed.
+
+Definition tail2 (v : bytes) : bool := match v with [c; d] => isdig c && isdig d | _ => false end.
+Definition numtail (flags : Z) (v : bytes) : bool :=
+  match v with
+  | a :: b :: r => isdig a && isdig b &&
+      match r with
+      | x :: r' => if x =? 58 then tail2 r' else has_flag flags iso8601_AllowNumericTimezone && tail2 r
+      | [] => false
+      end
+  | _ => false
+  end.
+Definition numz (flags : Z) (v : bytes) : bool :=
+  match v with sg :: r => sign_ok sg && numtail flags r | [] => false end.
+Definition zonez (flags : Z) (v : bytes) : bool :=
+  match v with
+  | [] => has_flag flags iso8601_AllowMissingTimezone
+  | x :: t => if x =? 90 then (match t with [] => true | _ => false end)
+              else if x =? 32 then has_flag flags iso8601_AllowSpaceSeparator && numz flags t
+              else numz flags v
+  end.
+Definition fracz (flags : Z) (v : bytes) : bool :=
+  match v with
+  | x :: t => if x =? 46 then (let j := take_digits 9 t in (1 <=? j)%nat && zonez flags (skipn j t))
+              else has_flag flags iso8601_AllowMissingSubsecond && zonez flags v
+  | [] => has_flag flags iso8601_AllowMissingSubsecond && zonez flags []
+  end.
+
+Definition vk1 (fuel : nat) (value : bytes) (ok : bool) : option bool :=
+  dlet (value, ok) <- iso8601_readDigits fuel value 2 2 in
+  if negb ok then Some false else Some (len value =? 0).
+Definition vk2 (fuel : nat) (flags : Z) (value : bytes) (ok : bool) : option bool :=
+  dlet (value, ok) <- iso8601_readDigits fuel value 2 2 in
+  if negb ok then Some false else
+  (let '(value, ok) := iso8601_readByte value 58 in
+   if negb ok then (if (andi64 flags iso8601_AllowNumericTimezone =? 0) then Some false else vk1 fuel value ok)
+   else vk1 fuel value ok).
+Definition vk3 (fuel : nat) (flags : Z) (value : bytes) : option bool :=
+  let '(value, ok) := iso8601_readByte value 43 in
+  if negb ok then
+    (let '(value, ok) := iso8601_readByte value 45 in
+     if negb ok then Some false else vk2 fuel flags value ok)
+  else vk2 fuel flags value ok.
+Definition vk4 (fuel : nat) (flags : Z) (value : bytes) (ok : bool) : option bool :=
+  if ((len value =? 0) && negb (andi64 flags iso8601_AllowMissingTimezone =? 0)) then Some true else
+  (let '(value, ok) := iso8601_readByte value 90 in
+   if ok then Some (len value =? 0) else
+   if negb (andi64 flags iso8601_AllowSpaceSeparator =? 0)
+   then (let '(value, _) := iso8601_readByte value 32 in vk3 fuel flags value)
+   else vk3 fuel flags value).
+Definition vk5 (fuel : nat) (flags : Z) (value : bytes) (ok : bool) : option bool :=
+  dlet (value, ok) <- iso8601_readDigits fuel value 2 2 in
+  if negb ok then Some false else
+  let '(value, ok) := iso8601_readByte value 58 in
+  if negb ok then Some false else
+  dlet (value, ok) <- iso8601_readDigits fuel value 2 2 in
+  if negb ok then Some false else
+  let '(value, ok) := iso8601_readByte value 58 in
+  if negb ok then Some false else
+  dlet (value, ok) <- iso8601_readDigits fuel value 2 2 in
+  if negb ok then Some false else
+  let '(value, ok) := iso8601_readByte value 46 in
+  if negb ok then
+    (if (andi64 flags iso8601_AllowMissingSubsecond =? 0) then Some false else vk4 fuel flags value ok)
+  else
+    (dlet (value, ok) <- iso8601_readDigits fuel value 1 9 in
+     if negb ok then Some false else vk4 fuel flags value ok).
+
+Lemma Valid_unfold fuel value flags :
+  iso8601_Valid fuel value flags =
+  dlet (value, ok) <- iso8601_readDigits fuel value 4 4 in
+  if negb ok then Some false else
+  let '(value, ok) := iso8601_readByte value 45 in
+  if negb ok then Some false else
+  dlet (value, ok) <- iso8601_readDigits fuel value 2 2 in
+  if negb ok then Some false else
+  let '(value, ok) := iso8601_readByte value 45 in
+  if negb ok then Some false else
+  dlet (value, ok) <- iso8601_readDigits fuel value 2 2 in
+  if negb ok then Some false else
+  if ((len value =? 0) && negb (andi64 flags iso8601_AllowMissingTime =? 0)) then Some true else
+  let '(value, ok) := iso8601_readByte value 84 in
+  if negb ok then
+    (if (andi64 flags iso8601_AllowSpaceSeparator =? 0) then Some false else
+     let '(value, ok) := iso8601_readByte value 32 in
+     if negb ok then Some false else vk5 fuel flags value ok)
+  else vk5 fuel flags value ok.
+Proof. reflexivity. Qed.
+
+Section ValidSpecs.
+  Variables (fuel : nat) (flags : Z).
+  Hypothesis Hfuel : (10 <= fuel)%nat.
+  Hypothesis Hflags : 0 <= flags < 2^62.
+
+  Lemma flagb F : 0 <= F < 2^62 -> (andi64 flags F =? 0) = negb (has_flag flags F).
+  Proof. intros. apply andi64_flag; lia. Qed.
+
+  Lemma vk1_spec v ok : vk1 fuel v ok = Some (tail2 v).
+  Proof.
+    unfold vk1. rewrite rd2 by assumption.
+    destruct v as [|c [|d [|e r]]]; try reflexivity; cbn [obind tail2]; destruct (isdig c && isdig d); reflexivity.
+  Qed.
+
+  Lemma vk2_spec v ok : vk2 fuel flags v ok = Some (numtail flags v).
+  Proof.
+    unfold vk2. rewrite rd2 by assumption.
+    destruct v as [|a [|b r]]; try reflexivity. cbn [obind numtail].
+    destruct (isdig a && isdig b); [|reflexivity]. cbn [negb andb].
+    rewrite readByte_spec. destruct r as [|x r'].
+    - cbn [negb]. rewrite flagb by (vm_compute; split; congruence).
+      destruct (has_flag flags iso8601_AllowNumericTimezone); [|reflexivity]. cbn [negb]. apply vk1_spec.
+    - destruct (x =? 58); cbn [negb].
+      + apply vk1_spec.
+      + rewrite flagb by (vm_compute; split; congruence).
+        destruct (has_flag flags iso8601_AllowNumericTimezone); [|reflexivity]. cbn [negb andb]. apply vk1_spec.
+  Qed.
+
+  Lemma vk3_spec v : vk3 fuel flags v = Some (numz flags v).
+  Proof.
+    unfold vk3. rewrite !readByte_spec. destruct v as [|sg r]; [reflexivity|].
+    unfold numz, sign_ok. destruct (sg =? 43); cbn [negb orb andb].
+    - apply vk2_spec.
+    - rewrite readByte_spec. destruct (sg =? 45); cbn [negb]; [apply vk2_spec | reflexivity].
+  Qed.
+
+  Lemma vk4_spec v ok : vk4 fuel flags v ok = Some (zonez flags v).
+  Proof.
+    unfold vk4. rewrite !flagb by (vm_compute; split; congruence). rewrite !negb_involutive.
+    rewrite !readByte_spec. destruct v as [|x t].
+    - change (len [] =? 0) with true. cbn [andb zonez].
+      destruct (has_flag flags iso8601_AllowMissingTimezone); [reflexivity|].
+      destruct (has_flag flags iso8601_AllowSpaceSeparator); apply vk3_spec.
+    - replace (len (x :: t) =? 0) with false by (unfold len; cbn [length]; lia). cbn [andb zonez].
+      destruct (x =? 90).
+      + destruct t; reflexivity.
+      + destruct (has_flag flags iso8601_AllowSpaceSeparator) eqn:HF.
+        * rewrite readByte_spec. destruct (x =? 32); cbn [andb]; apply vk3_spec.
+        * destruct (Z.eqb_spec x 32) as [->|N]; cbn [andb]; rewrite vk3_spec; reflexivity.
+  Qed.
+End ValidSpecs.
+
+Ltac zbits x := destruct x as [|x|x]; try reflexivity;
+  do 7 (try (destruct x as [x|x|]; try reflexivity)).
+
+Lemma zmatch58 {A} (x : Z) (a b : A) : match x with 58 => a | _ => b end = if x =? 58 then a else b.
+Proof. zbits x. Qed.
+Lemma zmatch45 {A} (x : Z) (a b : A) : match x with 45 => a | _ => b end = if x =? 45 then a else b.
+Proof. zbits x. Qed.
+Lemma zmatch46 {A} (x : Z) (a b : A) : match x with 46 => a | _ => b end = if x =? 46 then a else b.
+Proof. zbits x. Qed.
+Lemma zmatch_90_32 {A} (x : Z) (a b c : A) :
+  match x with 90 => a | 32 => b | _ => c end = if x =? 90 then a else if x =? 32 then b else c.
+Proof. zbits x. Qed.
+
+Ltac batoms := repeat match goal with
+  | |- context [isdig ?x] => destruct (isdig x)
+  | |- context [has_flag ?f ?g] => destruct (has_flag f g)
+  | |- context [sign_ok ?x] => destruct (sign_ok x)
+  end; try reflexivity.
+
+Lemma numzone_eq flags v : numzone_ok flags v = numz flags v.
+Proof.
+  destruct v as [|sg [|a [|b [|x [|c [|d [|e r]]]]]]]; unfold numzone_ok; cbv beta iota;
+    rewrite ?zmatch58; unfold numz, numtail, tail2.
+  1-4: batoms.
+  all: destruct (x =? 58) eqn:E; [replace (isdig x) with false by (unfold isdig; lia)|]; batoms.
+Qed.
+
+Lemma zone_eq flags v : zone_ok flags v = zonez flags v.
+Proof.
+  destruct v as [|x t]; [reflexivity|]. unfold zone_ok; cbv beta iota.
+  rewrite zmatch_90_32. rewrite !numzone_eq. unfold zonez.
+  destruct (x =? 90) eqn:E; [|reflexivity].
+  destruct t; [reflexivity|]. unfold numz. replace (sign_ok x) with false by (unfold sign_ok; lia). reflexivity.
+Qed.
+
+Lemma zonez_digit flags x r : isdig x = true -> zonez flags (x :: r) = false.
+Proof.
+  intros H. unfold zonez, numz. unfold isdig in H.
+  replace (x =? 90) with false by lia. replace (x =? 32) with false by lia.
+  replace (sign_ok x) with false by (unfold sign_ok; lia). reflexivity.
+Qed.
+
+Lemma take_digits_prefix n : forall v k, (k <= take_digits n v)%nat ->
+  (k <=? length v)%nat && forallb isdig (firstn k v) = true.
+Proof.
+  induction n as [|n IH]; intros v k H.
+  - cbn [take_digits] in H. assert (k = 0)%nat by lia. subst k. reflexivity.
+  - destruct v as [|x r]; cbn [take_digits] in H.
+    + assert (k = 0)%nat by lia. subst k. reflexivity.
+    + destruct (isdig x) eqn:E.
+      * destruct k as [|k]; [reflexivity|]. cbn [length Nat.leb firstn forallb]. rewrite E. cbn [andb].
+        apply IH. lia.
+      * assert (k = 0)%nat by lia. subst k. reflexivity.
+Qed.
+
+Lemma prefix_take_digits k : forall n v, (k <= n)%nat ->
+  (k <=? length v)%nat && forallb isdig (firstn k v) = true -> (k <= take_digits n v)%nat.
+Proof.
+  induction k as [|k IH]; intros n v Hn H; [lia|].
+  destruct n as [|n]; [lia|]. destruct v as [|x r]; [discriminate|].
+  cbn [length Nat.leb firstn forallb] in H. cbn [take_digits].
+  destruct (isdig x); [|rewrite andb_false_r in H; discriminate].
+  cbn [andb] in H. specialize (IH n r ltac:(lia) H). lia.
+Qed.
+
+Lemma take_digits_next k : forall n v, (k < take_digits n v)%nat ->
+  exists x r, skipn k v = x :: r /\ isdig x = true.
+Proof.
+  induction k as [|k IH]; intros n v H; (destruct n as [|n]; [cbn in H; lia|]);
+    (destruct v as [|x r]; [cbn in H; lia|]); cbn [take_digits] in H; destruct (isdig x) eqn:E; try lia.
+  - exists x, r. split; [reflexivity|assumption].
+  - cbn [skipn]. apply (IH n r). lia.
+Qed.
+
+Lemma frac_exists flags t :
+  existsb (fun k => (k <=? length t)%nat && forallb isdig (firstn k t) && zone_ok flags (skipn k t))
+          [1; 2; 3; 4; 5; 6; 7; 8; 9]%nat =
+  (1 <=? take_digits 9 t)%nat && zonez flags (skipn (take_digits 9 t) t).
+Proof.
+  apply eq_iff_eq_true. rewrite existsb_exists, andb_true_iff.
+  pose proof (take_digits_le 9 t) as [L1 L2]. split.
+  - intros (k & Hin & HP). apply andb_true_iff in HP. destruct HP as [H1 H2].
+    assert (1 <= k <= 9)%nat by (cbn [In] in Hin; lia).
+    pose proof (prefix_take_digits k 9 t ltac:(lia) H1) as Hle.
+    assert (k = take_digits 9 t).
+    { destruct (Nat.eq_dec k (take_digits 9 t)) as [|Hne]; [assumption|exfalso].
+      destruct (take_digits_next k 9 t ltac:(lia)) as (x & r & E1 & E2).
+      rewrite E1, zone_eq, zonez_digit in H2 by assumption. discriminate. }
+    subst k. rewrite zone_eq in H2. split; [apply Nat.leb_le; lia|assumption].
+  - intros [H1 H2]. apply Nat.leb_le in H1. exists (take_digits 9 t). split.
+    + cbn [In]. lia.
+    + rewrite (take_digits_prefix 9 t _ (le_n _)), zone_eq, H2. reflexivity.
+Qed.
+
+Lemma frac_eq flags v : frac_zone_ok flags v = fracz flags v.
+Proof.
+  unfold frac_zone_ok. destruct v as [|x t].
+  - rewrite orb_false_r, zone_eq. reflexivity.
+  - rewrite zmatch46, zone_eq. unfold fracz. destruct (x =? 46) eqn:E.
+    + rewrite frac_exists. cbv zeta.
+      replace (zonez flags (x :: t)) with false; [rewrite andb_false_r; reflexivity|].
+      unfold zonez, numz. replace (x =? 90) with false by lia. replace (x =? 32) with false by lia.
+      replace (sign_ok x) with false by (unfold sign_ok; lia). reflexivity.
+    + rewrite orb_false_r. reflexivity.
+Qed.
+
+Lemma time_ok_eq a b x c d y e f :
+  time_ok [a; b; x; c; d; y; e; f] =
+  (isdig a && isdig b) && (x =? 58) && (isdig c && isdig d) && (y =? 58) && (isdig e && isdig f).
+Proof.
+  unfold time_ok. rewrite !zmatch58. destruct (x =? 58), (y =? 58); batoms.
+Qed.
+Lemma date_ok_eq a b c d x e f y g h :
+  date_ok [a; b; c; d; x; e; f; y; g; h] =
+  (isdig a && isdig b && isdig c && isdig d) && (x =? 45) && (isdig e && isdig f) && (y =? 45) && (isdig g && isdig h).
+Proof.
+  unfold date_ok. rewrite !zmatch45. destruct (x =? 45), (y =? 45); batoms.
+Qed.
+
+Section ValidMain.
+  Variables (fuel : nat) (flags : Z).
+  Hypothesis Hfuel : (10 <= fuel)%nat.
+  Hypothesis Hflags : 0 <= flags < 2^62.
+
+  Ltac vstep :=
+    match goal with
+    | |- context [iso8601_readDigits _ _ 2 2] => rewrite rd2 by assumption; cbn [obind]
+    | |- context [iso8601_readDigits _ _ 4 4] => rewrite rd4 by assumption; cbn [obind]
+    | |- context [iso8601_readByte _ _] => rewrite readByte_spec
+    end; cbv beta iota;
+    try match goal with |- context [if ?c then (_, true) else (_, false)] => destruct c eqn:? end;
+    cbv beta iota; cbn [negb]; cbv beta iota.
+
+  Lemma vk4_frac r ok :
+    (if andi64 flags iso8601_AllowMissingSubsecond =? 0 then Some false else vk4 fuel flags r ok) =
+    Some (has_flag flags iso8601_AllowMissingSubsecond && zonez flags r).
+  Proof.
+    rewrite (andi64_flag flags) by (try apply Hflags; vm_compute; split; congruence).
+    destruct (has_flag flags iso8601_AllowMissingSubsecond); cbn [negb andb]; [|reflexivity].
+    apply vk4_spec; assumption.
+  Qed.
+
+  Lemma vk5_spec v ok :
+    vk5 fuel flags v ok =
+    Some ((8 <=? length v)%nat && time_ok (firstn 8 v) && frac_zone_ok flags (skipn 8 v)).
+  Proof.
+    unfold vk5. destruct v as [|a [|b [|x [|c [|d [|y [|e [|f r]]]]]]]].
+    1-8: repeat vstep; reflexivity.
+    cbn [length Nat.leb firstn skipn andb]. rewrite time_ok_eq, frac_eq.
+    do 5 (vstep; [|rewrite ?andb_false_r; reflexivity]). cbn [andb].
+    rewrite readByte_spec. unfold fracz. destruct r as [|z t].
+    - cbv beta iota. cbn [negb]. cbv iota. apply vk4_frac.
+    - destruct (z =? 46); cbv beta iota; cbn [negb]; cbv iota; [|apply vk4_frac].
+      rewrite rd19 by assumption. cbn [obind]. cbv zeta.
+      destruct (1 <=? take_digits 9 t)%nat; cbv beta iota; cbn [negb andb]; cbv iota; [|reflexivity].
+      apply vk4_spec; assumption.
+  Qed.
+
+  Lemma valid_main s : iso8601_Valid fuel s flags = Some (iso_spec flags s).
+  Proof.
+    rewrite Valid_unfold. unfold iso_spec.
+    destruct s as [|a [|b [|c [|d [|x [|e [|f [|y [|g [|h r]]]]]]]]]].
+    1-10: repeat vstep; reflexivity.
+    cbn [length Nat.leb firstn skipn andb]. rewrite date_ok_eq.
+    do 5 (vstep; [|rewrite ?andb_false_r; reflexivity]). cbn [andb].
+    rewrite (andi64_flag flags) by (try apply Hflags; vm_compute; split; congruence). rewrite negb_involutive.
+    destruct r as [|sep r'].
+    - change (len [] =? 0) with true. cbn [andb].
+      destruct (has_flag flags iso8601_AllowMissingTime); [reflexivity|].
+      vstep. rewrite (andi64_flag flags) by (try apply Hflags; vm_compute; split; congruence).
+      destruct (has_flag flags iso8601_AllowSpaceSeparator); cbn [negb]; [|reflexivity].
+      vstep. reflexivity.
+    - replace (len (sep :: r') =? 0) with false by (unfold len; cbn [length]; lia). cbn [andb].
+      rewrite readByte_spec. unfold sep_ok. destruct (sep =? 84); cbv beta iota; cbn [negb orb andb]; cbv iota.
+      + apply vk5_spec.
+      + rewrite (andi64_flag flags) by (try apply Hflags; vm_compute; split; congruence).
+        destruct (has_flag flags iso8601_AllowSpaceSeparator); cbn [negb andb]; [|reflexivity].
+        rewrite readByte_spec. destruct (sep =? 32); cbv beta iota; cbn [negb andb]; cbv iota; [|reflexivity].
+        apply vk5_spec.
+  Qed.
+End ValidMain.
+
 Lemma valid_grammar : valid_grammar_statement.
-Admitted.
+Proof. intros fuel s flags Hf _ Hfl. apply valid_main; assumption. Qed.
+
+(* ---------- Parse ---------- *)
+Definition fb (input : bytes) : time_t * option iso8601_error :=
+  let '(t, err) := time_parse [50; 48; 48; 54; 45; 48; 49; 45; 48; 50; 84; 49; 53; 58; 48; 52; 58; 48; 53; 46; 57; 57; 57; 57; 57; 57; 57; 57; 57; 90; 48; 55; 58; 48; 48] input in
+  if negb (isnil err) then (time_zero, Some iso8601_errInvalidTimestamp) else (t, None).
+
+Definition fin (year month day hour minute second nanos : Z) : time_t * option iso8601_error :=
+  let err_1 := iso8601_validate year month day hour minute second in
+  if negb (isnil err_1) then (time_zero, err_1)
+  else (time_unix_utc (addi64 (muli64 (s64 (iso8601_daysSinceEpoch year month day)) 86400)
+                              (s64 (add64 (add64 (mul64 hour 3600) (mul64 minute 60)) second))) nanos, None).
+
+Definition floop (input : bytes) (k : Z -> time_t * option iso8601_error) :=
+  fix loop4_ (l5_ : list Z) (i6_ : Z) (nanos : Z) {struct l5_} : time_t * option iso8601_error :=
+    match l5_ with
+    | [] => k nanos
+    | h7_ :: t8_ =>
+      if ((h7_ <? 48) || (h7_ >? 57)) then fb input
+      else loop4_ t8_ (i6_ + 1) (addi64 (muli64 nanos 10) (sub8 h7_ 48))
+    end.
+
+Definition fast (input : bytes) (t1 t2 t3 : Z) : time_t * option iso8601_error :=
+  let year := add64 (add64 (add64 (mul64 (and64 t1 15) 1000) (mul64 (and64 (shr64 t1 8) 15) 100)) (mul64 (and64 (shr64 t1 16) 15) 10)) (and64 (shr64 t1 24) 15) in
+  let month := add64 (mul64 (and64 (shr64 t1 40) 15) 10) (and64 (shr64 t1 48) 15) in
+  let day := add64 (mul64 (and64 t2 15) 10) (and64 (shr64 t2 8) 15) in
+  let hour := add64 (mul64 (and64 (shr64 t2 24) 15) 10) (and64 (shr64 t2 32) 15) in
+  let minute := add64 (mul64 (and64 (shr64 t2 48) 15) 10) (shr64 t2 56) in
+  let second := add64 (mul64 (and64 (shr64 t3 8) 15) 10) (shr64 t3 16) in
+  if (len input >? 20) then
+    floop input (fun nanos => fin year month day hour minute second
+                   (muli64 nanos (nth (Z.to_nat (subi64 30 (len input))) iso8601_pow10 0)))
+          (slice input 20 (subi64 (len input) 1)) 0 0
+  else fin year month day hour minute second 0.
+
+Lemma Parse_unfold input :
+  iso8601_Parse input =
+  if (((len input >=? 20) && (len input <=? 30)) && (at_ input (subi64 (len input) 1) =? 90)) then
+    if ((len input =? 21) || ((len input >? 21) && negb (at_ input 19 =? 46))) then fb input
+    else
+      let t1 := le64 input in
+      let t2 := le64 (slice input 8 16) in
+      let t3 := or64 (or64 (or64 (at_ input 16) (shl64 (at_ input 17) 8)) (shl64 (at_ input 18) 16)) 1509949440 in
+      if (((negb (iso8601_match t1 iso8601_sep1 iso8601_mask1)) || (negb (iso8601_match t2 iso8601_sep2 iso8601_mask2))) || (negb (iso8601_match t3 iso8601_sep3 iso8601_mask3))) then fb input
+      else
+        let t1 := xor64 t1 iso8601_replace1 in
+        let t2 := xor64 t2 iso8601_replace2 in
+        let t3 := xor64 t3 iso8601_replace3 in
+        if negb ((or64 (or64 (iso8601_nonNumeric t1) (iso8601_nonNumeric t2)) (iso8601_nonNumeric t3)) =? 0) then fb input
+        else fast input (sub64 t1 iso8601_zero) (sub64 t2 iso8601_zero) (sub64 t3 iso8601_zero)
+  else fb input.
+Proof. reflexivity. Qed.
+
+Lemma fb_obs input : parse_obs (fb input) = tp_obs (time_parse rfc3339nano_layout input).
+Proof.
+  unfold fb. change [50; 48; 48; 54; 45; 48; 49; 45; 48; 50; 84; 49; 53; 58; 48; 52; 58; 48; 53; 46; 57; 57; 57; 57; 57; 57; 57; 57; 57; 90; 48; 55; 58; 48; 48] with rfc3339nano_layout.
+  destruct (time_parse rfc3339nano_layout input) as [t [u|]]; reflexivity.
+Qed.
+
+(* ---------- lanes of the three words ---------- *)
+Ltac wfb_tac :=
+  repeat (apply wfb_zipw_lor || apply wfb_zipw_land || apply wfb_zipw_lxor);
+  unfold wfb, is_byte; cbn [forallb]; lia.
+
+Lemma land255 b : 0 <= b < 256 -> Z.land b 255 = b.
+Proof. intros. change 255 with (Z.ones 8). rewrite Z.land_ones by lia. apply Z.mod_small. change (2^8) with 256. lia. Qed.
+
+Lemma nonNumeric_eq u : iso8601_nonNumeric u = nonnumeric_mask 8 u.
+Proof.
+  unfold iso8601_nonNumeric, nonnumeric_mask, and64, or64, sub64, add64, w64, wN.
+  replace (lsbN 8 * 48) with iso8601_zero by (vm_compute; reflexivity).
+  replace (notN 8 (msbN 8) - lsbN 8 * 57) with ((9187201950435737471 - iso8601_nine) mod 2^64) by (vm_compute; reflexivity).
+  replace (256 ^ Z.of_nat 8) with (2^64) by (vm_compute; reflexivity).
+  replace (msbN 8) with iso8601_msb by (vm_compute; reflexivity).
+  reflexivity.
+Qed.
+
+Lemma nonNumeric_zero xs : wfb xs = true -> length xs = 8%nat ->
+  (iso8601_nonNumeric (le_load 8 xs) = 0 <-> forallb isdig xs = true).
+Proof. intros. rewrite nonNumeric_eq. apply nonnumeric_zero_iff; assumption. Qed.
+
+Lemma sub_zero_eq x : sub64 x iso8601_zero = wN 8 (x - lsbN 8 * 48).
+Proof.
+  unfold sub64, w64, wN.
+  replace (lsbN 8 * 48) with iso8601_zero by (vm_compute; reflexivity).
+  replace (256 ^ Z.of_nat 8) with (2^64) by (vm_compute; reflexivity). reflexivity.
+Qed.
+
+Lemma sub_zero_digits xs : wfb xs = true -> length xs = 8%nat -> forallb isdig xs = true ->
+  sub64 (le_load 8 xs) iso8601_zero = le_load 8 (map (fun b => b - 48) xs).
+Proof. intros. rewrite sub_zero_eq. apply digits_sub_zero; assumption. Qed.
+
+Lemma nib xs (k : nat) (s : Z) : wfb xs = true -> length xs = 8%nat -> s = 8 * Z.of_nat k -> (k < 8)%nat ->
+  and64 (shr64 (le_load 8 xs) s) 15 = nth k xs 0 mod 16.
+Proof.
+  intros Hx Lx -> Hk. unfold and64, shr64. replace (8 * Z.of_nat k <? 64) with true by lia.
+  apply lane_extract_nibble; assumption.
+Qed.
+Lemma nib0 xs : wfb xs = true -> length xs = 8%nat ->
+  and64 (le_load 8 xs) 15 = nth 0 xs 0 mod 16.
+Proof.
+  intros Hx Lx. rewrite <- (nib xs 0 0 Hx Lx eq_refl) by lia. unfold shr64. change (0 <? 64) with true.
+  rewrite Z.shiftr_0_r. reflexivity.
+Qed.
+Lemma top7 xs : wfb xs = true -> length xs = 8%nat -> shr64 (le_load 8 xs) 56 = nth 7 xs 0.
+Proof.
+  intros Hx Lx. unfold shr64. change (56 <? 64) with true. change 56 with (8 * Z.of_nat 7).
+  apply lane_extract_top; auto.
+Qed.
+
+
+Notation byte x := (0 <= x < 256) (only parsing).
+
+Lemma t3_eq b16 b17 b18 : byte b16 -> byte b17 -> byte b18 ->
+  or64 (or64 (or64 b16 (shl64 b17 8)) (shl64 b18 16)) 1509949440 = le_load 8 [b16; b17; b18; 90; 0; 0; 0; 0].
+Proof.
+  intros. unfold or64, shl64. change (8 <? 64) with true. change (16 <? 64) with true. cbv iota.
+  rewrite !Z.shiftl_mul_pow2 by lia. unfold w64.
+  change (2^64) with 18446744073709551616. change (2^8) with 256. change (2^16) with 65536.
+  rewrite !Z.mod_small by lia.
+  replace b16 with (le_load 8 [b16; 0; 0; 0; 0; 0; 0; 0]) at 1 by (cbn [le_load]; lia).
+  replace (b17 * 256) with (le_load 8 [0; b17; 0; 0; 0; 0; 0; 0]) by (cbn [le_load]; lia).
+  replace (b18 * 65536) with (le_load 8 [0; 0; b18; 0; 0; 0; 0; 0]) by (cbn [le_load]; lia).
+  replace 1509949440 with (le_load 8 [0; 0; 0; 90; 0; 0; 0; 0]) by (vm_compute; reflexivity).
+  rewrite !le_load_lor by (try reflexivity; wfb_tac).
+  cbn [zipw]. rewrite ?Z.lor_0_r, ?Z.lor_0_l. reflexivity.
+Qed.
+
+Lemma match1_eq b0 b1 b2 b3 b4 b5 b6 b7 :
+  byte b0 -> byte b1 -> byte b2 -> byte b3 -> byte b4 -> byte b5 -> byte b6 -> byte b7 ->
+  iso8601_match (le_load 8 [b0; b1; b2; b3; b4; b5; b6; b7]) iso8601_sep1 iso8601_mask1
+  = (b4 =? 45) && (b7 =? 45).
+Proof.
+  intros. unfold iso8601_match, and64.
+  replace iso8601_sep1 with (le_load 8 [0; 0; 0; 0; 255; 0; 0; 255]) by (vm_compute; reflexivity).
+  rewrite le_load_land by (try reflexivity; wfb_tac). cbn [zipw].
+  rewrite !Z.land_0_r, !land255 by lia. unfold iso8601_mask1. cbn [le_load]. lia.
+Qed.
+Lemma match2_eq b8 b9 b10 b11 b12 b13 b14 b15 :
+  byte b8 -> byte b9 -> byte b10 -> byte b11 -> byte b12 -> byte b13 -> byte b14 -> byte b15 ->
+  iso8601_match (le_load 8 [b8; b9; b10; b11; b12; b13; b14; b15]) iso8601_sep2 iso8601_mask2
+  = (b10 =? 84) && (b13 =? 58).
+Proof.
+  intros. unfold iso8601_match, and64.
+  replace iso8601_sep2 with (le_load 8 [0; 0; 255; 0; 0; 255; 0; 0]) by (vm_compute; reflexivity).
+  rewrite le_load_land by (try reflexivity; wfb_tac). cbn [zipw].
+  rewrite !Z.land_0_r, !land255 by lia. unfold iso8601_mask2. cbn [le_load]. lia.
+Qed.
+Lemma match3_eq b16 b17 b18 : byte b16 -> byte b17 -> byte b18 ->
+  iso8601_match (le_load 8 [b16; b17; b18; 90; 0; 0; 0; 0]) iso8601_sep3 iso8601_mask3 = (b16 =? 58).
+Proof.
+  intros. unfold iso8601_match, and64.
+  replace iso8601_sep3 with (le_load 8 [255; 0; 0; 255; 0; 0; 0; 0]) by (vm_compute; reflexivity).
+  rewrite le_load_land by (try reflexivity; wfb_tac). cbn [zipw].
+  rewrite !Z.land_0_r, !land255 by lia. unfold iso8601_mask3. cbn [le_load]. lia.
+Qed.
+
+Lemma xor1_eq b0 b1 b2 b3 b5 b6 : byte b0 -> byte b1 -> byte b2 -> byte b3 -> byte b5 -> byte b6 ->
+  xor64 (le_load 8 [b0; b1; b2; b3; 45; b5; b6; 45]) iso8601_replace1 = le_load 8 [b0; b1; b2; b3; 48; b5; b6; 48].
+Proof.
+  intros. unfold xor64.
+  replace iso8601_replace1 with (le_load 8 [0; 0; 0; 0; 29; 0; 0; 29]) by (vm_compute; reflexivity).
+  rewrite le_load_lxor by (try reflexivity; wfb_tac). cbn [zipw].
+  rewrite !Z.lxor_0_r. reflexivity.
+Qed.
+Lemma xor2_eq b8 b9 b11 b12 b14 b15 : byte b8 -> byte b9 -> byte b11 -> byte b12 -> byte b14 -> byte b15 ->
+  xor64 (le_load 8 [b8; b9; 84; b11; b12; 58; b14; b15]) iso8601_replace2 = le_load 8 [b8; b9; 48; b11; b12; 48; b14; b15].
+Proof.
+  intros. unfold xor64.
+  replace iso8601_replace2 with (le_load 8 [0; 0; 100; 0; 0; 10; 0; 0]) by (vm_compute; reflexivity).
+  rewrite le_load_lxor by (try reflexivity; wfb_tac). cbn [zipw].
+  rewrite !Z.lxor_0_r. reflexivity.
+Qed.
+Lemma xor3_eq b17 b18 : byte b17 -> byte b18 ->
+  xor64 (le_load 8 [58; b17; b18; 90; 0; 0; 0; 0]) iso8601_replace3 = le_load 8 [48; b17; b18; 48; 48; 48; 48; 48].
+Proof.
+  intros. unfold xor64.
+  replace iso8601_replace3 with (le_load 8 [10; 0; 0; 106; 48; 48; 48; 48]) by (vm_compute; reflexivity).
+  rewrite le_load_lxor by (try reflexivity; wfb_tac). cbn [zipw].
+  rewrite !Z.lxor_0_r. reflexivity.
+Qed.
+
+Lemma shr16_3 a b c : byte a -> byte b -> byte c -> shr64 (le_load 8 [a; b; c; 0; 0; 0; 0; 0]) 16 = c.
+Proof.
+  intros. unfold shr64. change (16 <? 64) with true. cbv iota. rewrite Z.shiftr_div_pow2 by lia.
+  cbn [le_load]. change (2^16) with 65536. lia.
+Qed.
+
+(* ---------- the accepted shape: values, validation, seconds ---------- *)
+Lemma days_in_le m y : days_in m y <= 31.
+Proof. unfold days_in. repeat match goal with |- context [if ?c then _ else _] => destruct c end; lia. Qed.
+
+Lemma month_table_bound k : 0 <= nth k [0; 31; 59; 90; 120; 151; 181; 212; 243; 273; 304; 334] 0 <= 334.
+Proof. do 12 (destruct k as [|k]; [cbn [nth]; lia|]). cbn [nth]. destruct k; lia. Qed.
+
+Lemma unix_days_bound y m d : 0 <= y <= 9999 -> 1 <= d <= 31 -> -800000 <= unix_days y m d <= 4000000.
+Proof.
+  intros Hy Hd. unfold unix_days, days_before_year, leaps_before, days_before_month.
+  pose proof (month_table_bound (Z.to_nat (m - 1))).
+  destruct (is_leap y && (3 <=? m)); lia.
+Qed.
+
+Lemma fin_obs y mo d h mi s nanos :
+  0 <= y <= 9999 -> 0 <= mo <= 99 -> 0 <= d <= 99 -> 0 <= h <= 99 -> 0 <= mi <= 99 -> 0 <= s <= 99 ->
+  parse_obs (fin y mo d h mi s nanos) =
+  if (1 <=? mo) && (mo <=? 12) && (1 <=? d) && (d <=? days_in mo y) && (h <? 24) && (mi <? 60) && (s <? 60)
+  then Some (civil_seconds y mo d h mi s, nanos, 0) else None.
+Proof.
+  intros Hy Hmo Hd Hh Hmi Hs. unfold fin. cbv zeta.
+  rewrite <- (validate_exact y mo d h mi s) by assumption.
+  destruct (iso8601_validate y mo d h mi s) eqn:E; [reflexivity|]. cbn [isnil negb]. cbv iota.
+  pose proof (validate_exact y mo d h mi s Hy Hmo Hd Hh Hmi Hs) as V. rewrite E in V. cbn [isnil] in V.
+  pose proof (days_in_le mo y) as Hdi.
+  assert (R : 1 <= mo <= 12 /\ 1 <= d <= 31 /\ h < 24 /\ mi < 60 /\ s < 60) by lia.
+  destruct R as (R1 & R2 & R3 & R4 & R5).
+  rewrite civil_days by lia. pose proof (unix_days_bound y mo d Hy R2) as Hu.
+  unfold parse_obs, time_unix_utc, civil_seconds. cbn [fst snd]. do 3 f_equal.
+  unfold muli64, addi64. simp64.
+  rewrite (s64_small (unix_days y mo d * 86400)) by lia.
+  rewrite (s64_small (h * 3600 + mi * 60 + s)) by lia.
+  rewrite s64_small by lia. lia.
+Qed.
+
+Section Shape.
+  Variables c0 c1 c2 c3 c5 c6 c8 c9 c11 c12 c14 c15 c17 c18 : Z.
+  Hypothesis D0 : isdig c0 = true.  Hypothesis D1 : isdig c1 = true.
+  Hypothesis D2 : isdig c2 = true.  Hypothesis D3 : isdig c3 = true.
+  Hypothesis D5 : isdig c5 = true.  Hypothesis D6 : isdig c6 = true.
+  Hypothesis D8 : isdig c8 = true.  Hypothesis D9 : isdig c9 = true.
+  Hypothesis D11 : isdig c11 = true.  Hypothesis D12 : isdig c12 = true.
+  Hypothesis D14 : isdig c14 = true.  Hypothesis D15 : isdig c15 = true.
+  Hypothesis D17 : isdig c17 = true.  Hypothesis D18 : isdig c18 = true.
+
+  Definition vY := (c0 - 48) * 1000 + (c1 - 48) * 100 + (c2 - 48) * 10 + (c3 - 48).
+  Definition vMo := (c5 - 48) * 10 + (c6 - 48).
+  Definition vD := (c8 - 48) * 10 + (c9 - 48).
+  Definition vH := (c11 - 48) * 10 + (c12 - 48).
+  Definition vMi := (c14 - 48) * 10 + (c15 - 48).
+  Definition vS := (c17 - 48) * 10 + (c18 - 48).
+
+  Lemma tp_shape tl :
+    time_parse_rfc3339 (c0 :: c1 :: c2 :: c3 :: 45 :: c5 :: c6 :: 45 :: c8 :: c9 :: 84 :: c11 :: c12 :: 58 ::
+                        c14 :: c15 :: 58 :: c17 :: c18 :: tl) =
+    if (vMo <=? 0) || (12 <? vMo) then None else
+    if 24 <=? vH then None else
+    if 60 <=? vMi then None else
+    if 60 <=? vS then None else
+    let '(nsec, v) := getfrac tl in
+    match getzone v with
+    | None => None
+    | Some (off, v) =>
+      match v with
+      | _ :: _ => None
+      | [] => if (vD <? 1) || (days_in vMo vY <? vD) then None
+              else Some (civil_seconds vY vMo vD vH vMi vS - off, nsec, off)
+      end
+    end.
+  Proof.
+    unfold time_parse_rfc3339, getyear, getnum2, getnum12, lit.
+    do 8 (rewrite ?D0, ?D1, ?D2, ?D3, ?D5, ?D6, ?D8, ?D9, ?D11, ?D12, ?D14, ?D15, ?D17, ?D18;
+      cbn [andb]; rewrite ?Z.eqb_refl; cbv beta iota).
+    reflexivity.
+  Qed.
+End Shape.
+
+(* ---------- the fraction ---------- *)
+Definition fstep (acc c : Z) : Z := acc * 10 + (c - 48).
+
+Lemma len_cons {A} (x : A) l : len (x :: l) = 1 + len l.
+Proof. unfold len. cbn [length]. lia. Qed.
+
+Lemma pow10_cons {A} (x : A) l : 10 ^ len (x :: l) = 10 * 10 ^ len l.
+Proof. rewrite len_cons. rewrite Z.pow_add_r by (unfold len; lia). reflexivity. Qed.
+
+Lemma pow10_pos {A} (l : list A) : 0 < 10 ^ len l.
+Proof. apply Z.pow_pos_nonneg; unfold len; lia. Qed.
+
+Lemma fold_bound mid : forall nanos B, forallb isdig mid = true -> 0 <= nanos <= B ->
+  0 <= fold_left fstep mid nanos <= (B + 1) * 10 ^ len mid - 1.
+Proof.
+  induction mid as [|h t IH]; intros nanos B Hd Hn.
+  - cbn [fold_left]. change (10 ^ len []) with 1. lia.
+  - cbn [forallb] in Hd. apply andb_true_iff in Hd. destruct Hd as [Hh Ht]. unfold isdig in Hh.
+    cbn [fold_left]. rewrite pow10_cons. pose proof (pow10_pos t) as Hp.
+    specialize (IH (fstep nanos h) (B * 10 + 9) Ht ltac:(unfold fstep; lia)).
+    replace ((B + 1) * (10 * 10 ^ len t)) with ((B * 10 + 9 + 1) * 10 ^ len t) by ring. exact IH.
+Qed.
+
+Lemma floop_cons input k h t i n :
+  floop input k (h :: t) i n =
+  if (h <? 48) || (h >? 57) then fb input else floop input k t (i + 1) (addi64 (muli64 n 10) (sub8 h 48)).
+Proof. reflexivity. Qed.
+
+Lemma floop_spec input k mid : forall i nanos B, 0 <= nanos <= B -> (B + 1) * 10 ^ len mid <= 10 ^ 18 ->
+  floop input k mid i nanos = if forallb isdig mid then k (fold_left fstep mid nanos) else fb input.
+Proof.
+  induction mid as [|h t IH]; intros i nanos B Hn HB; [reflexivity|].
+  rewrite floop_cons. cbn [forallb fold_left]. rewrite pow10_cons in HB. pose proof (pow10_pos t) as Hp.
+  destruct (isdig h) eqn:Hh; unfold isdig in Hh.
+  - replace ((h <? 48) || (h >? 57)) with false by lia. cbn [andb].
+    assert (Hsm : (B + 1) * 10 <= 10 ^ 18) by nia. change (10 ^ 18) with 1000000000000000000 in *.
+    unfold addi64, muli64, sub8, w8. change (2 ^ 8) with 256. rewrite (Z.mod_small (h - 48)) by lia.
+    rewrite (s64_small (nanos * 10)) by lia. rewrite s64_small by lia.
+    apply (IH _ _ (B * 10 + 9)); [lia|].
+    replace ((B * 10 + 9 + 1) * 10 ^ len t) with ((B + 1) * (10 * 10 ^ len t)) by ring. lia.
+  - replace ((h <? 48) || (h >? 57)) with true by lia. reflexivity.
+Qed.
+
+Lemma span_digits_app mid rest : forallb isdig mid = true -> span_digits (mid ++ 90 :: rest) = (mid, 90 :: rest).
+Proof.
+  induction mid as [|h t IH]; intros Hd; [reflexivity|].
+  cbn [forallb] in Hd. apply andb_true_iff in Hd. destruct Hd as [Hh Ht].
+  cbn [app span_digits]. rewrite Hh, (IH Ht). reflexivity.
+Qed.
+
+Lemma getfrac_digits mid : forallb isdig mid = true -> mid <> [] -> (length mid <= 9)%nat ->
+  getfrac (46 :: mid ++ [90]) = (fold_left fstep mid 0 * 10 ^ (9 - len mid), [90]).
+Proof.
+  intros Hd Hne Hl. destruct mid as [|d t]; [contradiction|].
+  pose proof Hd as Hd'. cbn [forallb] in Hd'. apply andb_true_iff in Hd'. destruct Hd' as [Hh Ht].
+  unfold getfrac. cbn [app tl]. change ((46 =? 46) || (46 =? 44)) with true. rewrite Hh. cbn [andb].
+  change (d :: t ++ [90]) with ((d :: t) ++ [90]). rewrite span_digits_app by assumption.
+  rewrite firstn_all2 by assumption. reflexivity.
+Qed.
+
+Lemma pow10_nth (n : nat) : (1 <= n <= 9)%nat ->
+  nth (Z.to_nat (9 - Z.of_nat n)) iso8601_pow10 0 = 10 ^ (9 - Z.of_nat n).
+Proof.
+  intros H. assert (Hc : (n = 1 \/ n = 2 \/ n = 3 \/ n = 4 \/ n = 5 \/ n = 6 \/ n = 7 \/ n = 8 \/ n = 9)%nat) by lia.
+  repeat (destruct Hc as [Hc|Hc]); subst n; reflexivity.
+Qed.
+
+(* ---------- putting Parse together ---------- *)
+Lemma chain_eq {A} (X : A) y mo d h mi s :
+  (if (mo <=? 0) || (12 <? mo) then None else
+   if 24 <=? h then None else
+   if 60 <=? mi then None else
+   if 60 <=? s then None else
+   if (d <? 1) || (days_in mo y <? d) then None else Some X) =
+  if (1 <=? mo) && (mo <=? 12) && (1 <=? d) && (d <=? days_in mo y) && (h <? 24) && (mi <? 60) && (s <? 60)
+  then Some X else None.
+Proof.
+  assert (E : (1 <=? mo) && (mo <=? 12) && (1 <=? d) && (d <=? days_in mo y) && (h <? 24) && (mi <? 60) && (s <? 60) =
+              negb ((mo <=? 0) || (12 <? mo)) && negb (24 <=? h) && negb (60 <=? mi) && negb (60 <=? s) &&
+              negb ((d <? 1) || (days_in mo y <? d))) by lia.
+  rewrite E.
+  destruct ((mo <=? 0) || (12 <? mo)); [reflexivity|].
+  destruct (24 <=? h); [reflexivity|]. destruct (60 <=? mi); [reflexivity|].
+  destruct (60 <=? s); [reflexivity|]. destruct ((d <? 1) || (days_in mo y <? d)); reflexivity.
+Qed.
+
+Lemma finish y mo d h mi s nanos tl0 :
+  0 <= y <= 9999 -> 0 <= mo <= 99 -> 0 <= d <= 99 -> 0 <= h <= 99 -> 0 <= mi <= 99 -> 0 <= s <= 99 ->
+  getfrac tl0 = (nanos, [90]) ->
+  parse_obs (fin y mo d h mi s nanos) =
+  tp_obs (match
+    (if (mo <=? 0) || (12 <? mo) then None else
+     if 24 <=? h then None else
+     if 60 <=? mi then None else
+     if 60 <=? s then None else
+     let '(nsec, v) := getfrac tl0 in
+     match getzone v with
+     | None => None
+     | Some (off, v) =>
+       match v with
+       | _ :: _ => None
+       | [] => if (d <? 1) || (days_in mo y <? d) then None
+               else Some (civil_seconds y mo d h mi s - off, nsec, off)
+       end
+     end) with Some t => (t, None) | None => (time_zero, Some tt) end).
+Proof.
+  intros Hy Hmo Hd Hh Hmi Hs G. rewrite G. cbn [getzone]. cbv beta iota.
+  rewrite chain_eq. rewrite fin_obs by assumption.
+  destruct ((1 <=? mo) && (mo <=? 12) && (1 <=? d) && (d <=? days_in mo y) && (h <? 24) && (mi <? 60) && (s <? 60));
+    [|reflexivity].
+  unfold tp_obs. cbn [fst snd]. rewrite Z.sub_0_r. reflexivity.
+Qed.
+
+Lemma forallb8 a b c d e f g h : forallb isdig [a; b; c; d; e; f; g; h] = true ->
+  isdig a = true /\ isdig b = true /\ isdig c = true /\ isdig d = true /\
+  isdig e = true /\ isdig f = true /\ isdig g = true /\ isdig h = true.
+Proof. cbn [forallb]. rewrite !andb_true_iff. tauto. Qed.
+
+Lemma split19 (l : bytes) : (19 <= length l)%nat ->
+  exists b0 b1 b2 b3 b4 b5 b6 b7 b8 b9 b10 b11 b12 b13 b14 b15 b16 b17 b18 r,
+    l = b0 :: b1 :: b2 :: b3 :: b4 :: b5 :: b6 :: b7 :: b8 :: b9 :: b10 :: b11 :: b12 :: b13 :: b14 ::
+        b15 :: b16 :: b17 :: b18 :: r.
+Proof.
+  intros H. do 19 (destruct l as [|? l]; [cbn [length] in H; lia|]). repeat eexists.
+Qed.
+
+Lemma decompose input : 20 <= len input <= 30 -> at_ input (subi64 (len input) 1) = 90 ->
+  exists b0 b1 b2 b3 b4 b5 b6 b7 b8 b9 b10 b11 b12 b13 b14 b15 b16 b17 b18 r,
+    input = b0 :: b1 :: b2 :: b3 :: b4 :: b5 :: b6 :: b7 :: b8 :: b9 :: b10 :: b11 :: b12 :: b13 :: b14 ::
+            b15 :: b16 :: b17 :: b18 :: (r ++ [90]) /\ (length r <= 10)%nat.
+Proof.
+  intros HL HZ. assert (Hne : input <> []) by (intros ->; cbn in HL; lia).
+  destruct (exists_last Hne) as (l & z & ->).
+  unfold len in *. rewrite app_length in *. cbn [length] in *.
+  unfold subi64, at_ in HZ. rewrite s64_small in HZ by lia.
+  replace (Z.to_nat (Z.of_nat (length l + 1) - 1)) with (length l) in HZ by lia.
+  rewrite app_nth2, Nat.sub_diag in HZ by lia. cbn [nth] in HZ. subst z.
+  destruct (split19 l ltac:(lia)) as (b0 & b1 & b2 & b3 & b4 & b5 & b6 & b7 & b8 & b9 & b10 & b11 & b12 &
+    b13 & b14 & b15 & b16 & b17 & b18 & r & ->).
+  exists b0, b1, b2, b3, b4, b5, b6, b7, b8, b9, b10, b11, b12, b13, b14, b15, b16, b17, b18, r.
+  split; [reflexivity|]. cbn [length] in HL. lia.
+Qed.
+
+Lemma parse_fast b0 b1 b2 b3 b4 b5 b6 b7 b8 b9 b10 b11 b12 b13 b14 b15 b16 b17 b18 r :
+  byte b0 -> byte b1 -> byte b2 -> byte b3 -> byte b4 -> byte b5 -> byte b6 -> byte b7 -> byte b8 -> byte b9 ->
+  byte b10 -> byte b11 -> byte b12 -> byte b13 -> byte b14 -> byte b15 -> byte b16 -> byte b17 -> byte b18 ->
+  (length r <= 10)%nat ->
+  let input := b0 :: b1 :: b2 :: b3 :: b4 :: b5 :: b6 :: b7 :: b8 :: b9 :: b10 :: b11 :: b12 :: b13 :: b14 ::
+               b15 :: b16 :: b17 :: b18 :: (r ++ [90]) in
+  parse_obs (iso8601_Parse input) = tp_obs (time_parse rfc3339nano_layout input).
+Proof.
+  intros H0 H1 H2 H3 H4 H5 H6 H7 H8 H9 H10 H11 H12 H13 H14 H15 H16 H17 H18 Hr input.
+  rewrite Parse_unfold. cbv zeta.
+  destruct ((len input >=? 20) && (len input <=? 30) && (at_ input (subi64 (len input) 1) =? 90)); [|apply fb_obs].
+  destruct ((len input =? 21) || (len input >? 21) && negb (at_ input 19 =? 46)) eqn:C; [apply fb_obs|].
+  change (le64 input) with (le_load 8 [b0; b1; b2; b3; b4; b5; b6; b7]).
+  change (le64 (slice input 8 16)) with (le_load 8 [b8; b9; b10; b11; b12; b13; b14; b15]).
+  change (at_ input 16) with b16. change (at_ input 17) with b17. change (at_ input 18) with b18.
+  rewrite t3_eq by assumption. rewrite match1_eq, match2_eq, match3_eq by assumption.
+  destruct (Z.eqb_spec b4 45) as [E4|]; cbn [andb negb orb]; [|apply fb_obs].
+  destruct (Z.eqb_spec b7 45) as [E7|]; cbn [andb negb orb]; [|apply fb_obs].
+  destruct (Z.eqb_spec b10 84) as [E10|]; cbn [andb negb orb]; [|apply fb_obs].
+  destruct (Z.eqb_spec b13 58) as [E13|]; cbn [andb negb orb]; [|apply fb_obs].
+  destruct (Z.eqb_spec b16 58) as [E16|]; cbn [andb negb orb]; [|apply fb_obs].
+  subst b4 b7 b10 b13 b16.
+  rewrite xor1_eq, xor2_eq, xor3_eq by assumption.
+  destruct (or64 (or64 (iso8601_nonNumeric (le_load 8 [b0; b1; b2; b3; 48; b5; b6; 48]))
+                       (iso8601_nonNumeric (le_load 8 [b8; b9; 48; b11; b12; 48; b14; b15])))
+                 (iso8601_nonNumeric (le_load 8 [48; b17; b18; 48; 48; 48; 48; 48])) =? 0) eqn:N;
+    cbn [negb]; [|apply fb_obs].
+  apply Z.eqb_eq in N. unfold or64 in N. apply Z.lor_eq_0_iff in N. destruct N as [N N3].
+  apply Z.lor_eq_0_iff in N. destruct N as [N1 N2].
+  apply nonNumeric_zero in N1; [|wfb_tac|reflexivity].
+  apply nonNumeric_zero in N2; [|wfb_tac|reflexivity].
+  apply nonNumeric_zero in N3; [|wfb_tac|reflexivity].
+  rewrite !sub_zero_digits by (try assumption; try reflexivity; wfb_tac).
+  destruct (forallb8 _ _ _ _ _ _ _ _ N1) as (D0 & D1 & D2 & D3 & _ & D5 & D6 & _).
+  destruct (forallb8 _ _ _ _ _ _ _ _ N2) as (D8 & D9 & _ & D11 & D12 & _ & D14 & D15).
+  destruct (forallb8 _ _ _ _ _ _ _ _ N3) as (_ & D17 & D18 & _).
+  clear N1 N2 N3.
+  unfold fast. cbn [map]. change (48 - 48) with 0.
+  assert (R0 : 48 <= b0 <= 57) by (unfold isdig in D0; lia).
+  assert (R1 : 48 <= b1 <= 57) by (unfold isdig in D1; lia).
+  assert (R2 : 48 <= b2 <= 57) by (unfold isdig in D2; lia).
+  assert (R3 : 48 <= b3 <= 57) by (unfold isdig in D3; lia).
+  assert (R5 : 48 <= b5 <= 57) by (unfold isdig in D5; lia).
+  assert (R6 : 48 <= b6 <= 57) by (unfold isdig in D6; lia).
+  assert (R8 : 48 <= b8 <= 57) by (unfold isdig in D8; lia).
+  assert (R9 : 48 <= b9 <= 57) by (unfold isdig in D9; lia).
+  assert (R11 : 48 <= b11 <= 57) by (unfold isdig in D11; lia).
+  assert (R12 : 48 <= b12 <= 57) by (unfold isdig in D12; lia).
+  assert (R14 : 48 <= b14 <= 57) by (unfold isdig in D14; lia).
+  assert (R15 : 48 <= b15 <= 57) by (unfold isdig in D15; lia).
+  assert (R17 : 48 <= b17 <= 57) by (unfold isdig in D17; lia).
+  assert (R18 : 48 <= b18 <= 57) by (unfold isdig in D18; lia).
+  rewrite !nib0, !(nib _ 1 8), !(nib _ 2 16), !(nib _ 3 24), !(nib _ 4 32), !(nib _ 5 40), !(nib _ 6 48),
+    !top7, !shr16_3 by solve [reflexivity | lia | wfb_tac].
+  cbn [nth]. rewrite !Z.mod_small by lia. simp64.
+  unfold time_parse. change (bytes_eqb rfc3339nano_layout rfc3339nano_layout) with true. cbv iota.
+  subst input. destruct r as [|x [|y mid']].
+  - (* no fraction *)
+    cbn [app]. match goal with |- context [len ?l >? 20] => change (len l >? 20) with false end. cbv iota.
+    rewrite tp_shape by assumption. unfold vY, vMo, vD, vH, vMi, vS.
+    apply finish; try lia. reflexivity.
+  - (* length 21 *)
+    exfalso. match type of C with (?a || _) = false => change a with true in C end. discriminate C.
+  - remember (y :: mid') as mid eqn:Em.
+    assert (Hm : (1 <= length mid <= 9)%nat) by (subst mid; cbn [length] in *; lia).
+    change ((x :: mid) ++ [90]) with (x :: (mid ++ [90])) in *.
+    assert (Ex : x = 46).
+    { unfold len, at_ in C. change (Z.to_nat 19) with 19%nat in C. cbn [nth length] in C.
+      rewrite app_length in C. cbn [length] in C. lia. }
+    subst x. clear C.
+    match goal with |- context [len ?l >? 20] =>
+      replace (len l >? 20) with true by (unfold len; cbn [length]; rewrite app_length; cbn [length]; lia);
+      replace (subi64 30 (len l)) with (9 - Z.of_nat (length mid))
+        by (unfold subi64, len; cbn [length]; rewrite app_length; cbn [length]; rewrite s64_small; lia);
+      replace (subi64 (len l) 1) with (20 + Z.of_nat (length mid))
+        by (unfold subi64, len; cbn [length]; rewrite app_length; cbn [length]; rewrite s64_small; lia)
+    end.
+    cbv iota. rewrite pow10_nth by lia.
+    unfold slice. change (Z.to_nat 20) with 20%nat. cbn [skipn].
+    replace (Z.to_nat (20 + Z.of_nat (length mid) - 20)) with (length mid + 0)%nat by lia.
+    rewrite firstn_app_2. cbn [firstn]. rewrite app_nil_r.
+    assert (P18 : (0 + 1) * 10 ^ len mid <= 10 ^ 18).
+    { rewrite Z.mul_1_l. apply Z.pow_le_mono_r; unfold len; lia. }
+    rewrite (floop_spec _ _ _ _ _ 0) by (try assumption; lia).
+    destruct (forallb isdig mid) eqn:Dm; [|apply fb_obs].
+    rewrite tp_shape by assumption. unfold vY, vMo, vD, vH, vMi, vS.
+    apply finish; try lia.
+    rewrite getfrac_digits by (try assumption; try lia; subst mid; discriminate).
+    f_equal. unfold muli64, len. rewrite s64_small; [reflexivity|].
+    pose proof (fold_bound mid 0 0 Dm ltac:(lia)) as FB. unfold len in FB.
+    assert (PP : 10 ^ Z.of_nat (length mid) * 10 ^ (9 - Z.of_nat (length mid)) = 10 ^ 9)
+      by (rewrite <- Z.pow_add_r by lia; f_equal; lia).
+    assert (0 < 10 ^ (9 - Z.of_nat (length mid))) by (apply Z.pow_pos_nonneg; lia).
+    change (10 ^ 9) with 1000000000 in PP. nia.
+Qed.
+
 Lemma parse_agrees : parse_agrees_statement.
-Admitted.
+Proof.
+  intros input Hwf.
+  destruct ((len input >=? 20) && (len input <=? 30) && (at_ input (subi64 (len input) 1) =? 90)) eqn:W.
+  - apply andb_true_iff in W. destruct W as [W1 W3]. apply andb_true_iff in W1. destruct W1 as [W1 W2].
+    destruct (decompose input ltac:(lia) ltac:(lia)) as (b0 & b1 & b2 & b3 & b4 & b5 & b6 & b7 & b8 & b9 & b10 & b11 & b12 &
+      b13 & b14 & b15 & b16 & b17 & b18 & r & -> & Hr).
+    unfold wfb, is_byte in Hwf. cbn [forallb] in Hwf.
+    apply parse_fast; try assumption; lia.
+  - rewrite Parse_unfold, W. apply fb_obs.
+Qed.
